@@ -149,7 +149,7 @@ class Walker:
             if p.get("k") == "inst" and p["id"] in self.fork_cells:
                 return (p["id"], 1)
             return None
-        if i.op == "icmp" and i["pred"] in ("eq", "ne") and i["b"].get("k") == "const" and i["b"]["v"] == 0:
+        if i.op == "icmp" and i["pred"] in ("eq", "ne") and ((i["b"].get("k") == "const" and i["b"]["v"] == 0) or i["b"].get("k") == "null"):
             r = self.root_cell(i["a"], depth + 1)
             if r:
                 return (r[0], r[1] if i["pred"] == "ne" else 1 - r[1])
@@ -261,3 +261,51 @@ class Walker:
                             seen.add(st)
                             work.append(st)
         return n
+
+
+def flag_cells(fn):
+    """locals suitable for exact tracking without unbounded growth: _Bool locals, result slots, pointer locals (NULL / not NULL) and integer or
+    enum locals that are only ever assigned constants (status codes such as `check = BOARD_NOT_CONNECTED;`)"""
+    out = {}
+    cand = {}
+    for a in fn.allocas().values():
+        if "size" in a.d and (a["aty"] in INT_TYPES or a["aty"].endswith("*")) and (a.get("size") or 0) <= 8:
+            cand[a.id] = a
+    stores = {}
+    for i in fn.all_insts():
+        for k, o in operands(i):
+            if o.get("k") == "inst" and o["id"] in cand:
+                if i.op in ("load", "store") and k == "ptr":
+                    if i.op == "store":
+                        stores.setdefault(o["id"], []).append(i)
+                    continue
+                cand.pop(o["id"], None)
+    for aid, a in cand.items():
+        if fn.is_bool_alloca(a) or a["aty"] == "i1" or a["aty"].endswith("*"):
+            out[aid] = a
+        elif all(s_["val"].get("k") == "const" for s_ in stores.get(aid, [])) and stores.get(aid):
+            out[aid] = a
+    return out
+
+
+def guard_on_all_paths(fn, sink, edge_establishes, max_states=150000):
+    """path-sensitive guard check: True when on every feasible path (constants propagated through flag/status/pointer locals) that reaches
+    `sink`, a branch edge for which edge_establishes(branch inst, successor block id, facts) is true was taken before; False if some
+    path reaches the sink without it; None when the walk was truncated"""
+    bad = []
+
+    def on_inst(i, u, facts):
+        if i.id == sink.id and not u:
+            bad.append(i)
+            return []
+        return None
+
+    def on_edge(br, succ, u, facts):
+        if not u and edge_establishes(br, succ, facts):
+            return True
+        return u
+    W = Walker(fn, cells=flag_cells(fn), max_states=max_states)
+    W.walk(False, on_inst, on_edge=on_edge)
+    if W.truncated:
+        return None
+    return not bad
